@@ -5,14 +5,22 @@
 (* the predicted bytes / error.  Families:                                        *)
 (*  "d"  one directive "[%...]" with its arguments (incl. the ones for '*');      *)
 (*       cn / cs: the argument converted the AWK way (for the C sanity gate)      *)
+(*  "k"  the same shape on the argument-KIND family (KindArgs: text from input    *)
+(*       = strnum, string constants and numbers of the same spelling, the         *)
+(*       uninitialised value); isnum: is the argument a number for %c; alts: the  *)
+(*       results of the other dialects where the argument is an open form         *)
 (*  "m"  formats with several directives, literal text, %%, missing arguments,    *)
 (*       dangling % and unknown conversions                                        *)
-(*  "o"  print of a number under an OFMT setting                                   *)
-(* Only the stratum Stratum of NStrata (chosen by the seed) of family "d" is       *)
-(* exported; NStrata = 1 exports everything.                                       *)
+(*  "q"  a run: several calls in ONE interpreter with the result of each (the     *)
+(*       specification has no state: every call is explained by Format alone)     *)
+(*  "p"  one print line: argument list (numbers, strings, input text,             *)
+(*       uninitialised) x OFMT text x CONVFMT text x output mode x OFS            *)
+(*  "v"  %s of a number under a CONVFMT text                                       *)
+(* Only the stratum Stratum of NStrata (chosen by the seed) of family "d" (and    *)
+(* KStratum of KStrata of family "k") is exported; 1 exports everything.          *)
 EXTENDS PrintfCases, TLC, Json
 
-CONSTANTS NStrata, Stratum
+CONSTANTS NStrata, Stratum, KFull, KStrata, KStratum
 
 VARIABLES fam, verb, v, chars, st
 vars == <<fam, verb, v, chars, st>>
@@ -20,46 +28,71 @@ vars == <<fam, verb, v, chars, st>>
 PNumJ(n) == [t |-> n.t, neg |-> n.neg, d |-> n.d, x |-> n.x]
 PValJ(a) == [tag |-> a.tag, s |-> a.s, n |-> PNumJ(a.n)]
 ArgsJ(args) == [j \in 1..Len(args) |-> PValJ(args[j])]
-
-OFMTs == << [verb |-> "g", prec |-> 6], [verb |-> "f", prec |-> 2], [verb |-> "e", prec |-> 3], [verb |-> "g", prec |-> 3] >>
-PrintNums == { Zero, NatNum(1), NatNum(0 - 42), NatNum(100000), NatNum(1000000), NatNum(2147483647), Dec(FALSE, P53, 0), Dec(TRUE, P63, 0),
-               Dec(FALSE, <<1>>, 18), Dec(FALSE, <<5>>, 0 - 1), Dec(TRUE, <<1, 2, 5>>, 0 - 3), Dec(FALSE, <<1, 2, 3, 4, 5, 6, 7, 5>>, 0 - 1),
-               Dec(FALSE, <<1>>, 0 - 1), Dec(FALSE, <<3, 1, 4, 1, 5, 9, 2, 6, 5>>, 0 - 8), Dec(FALSE, <<1>>, 30), Dec(FALSE, <<1>>, 0 - 5),
-               Dec(FALSE, <<1, 0, 0, 0, 0, 0, 0, 5>>, 0 - 1), Dec(FALSE, <<2, 5>>, 0 - 1) }
+\* (the JSON text is built before PrintT is entered: PrintT evaluates its argument under a lock)
+Out(rec) == LET j == ToJson(rec) IN Len(j) > 0 /\ PrintT(j)
+Judged(r, alts) == ~IsUnmStr(r.out) /\ \A q \in alts : ~IsUnmStr(q.out)
 
 Init == \/ fam = "d" /\ verb \in Verbs /\ v \in ArgsFor(verb) /\ chars \in ModesFor(verb) /\ st = 0
+        \/ fam = "k" /\ verb \in Verbs /\ v \in KindArgs /\ chars \in ModesFor(verb) /\ st = 0
         \/ fam = "m" /\ verb = 0 /\ v = VNull /\ chars \in {FALSE, TRUE} /\ st = 0
-        \/ fam = "o" /\ verb = 0 /\ v \in {VNum(n1) : n1 \in PrintNums} /\ chars = FALSE /\ st = 0
+        \/ fam = "q" /\ verb = 0 /\ v \in Seqs /\ chars \in {FALSE, TRUE} /\ st = 0
+        \/ fam = "p" /\ verb = 0 /\ v \in PrintLists /\ chars = FALSE /\ st = 0
+        \/ fam = "v" /\ verb = 0 /\ v \in {VNum(n1) : n1 \in PrintNums} /\ chars = FALSE /\ st = 0
 
 ConvNum(vb, a) == IF vb \in IntVerbs \cup UnsVerbs \/ vb = c_c THEN IntArg(a) ELSE ToNum(a, GoawkDialect)
 
+DirCase(family, flags, wi, pi) ==
+  LET d == MkDir(flags, wi, pi, verb)
+      args == CaseArgs(wi, pi, v)
+      f == CaseFmt(d)
+  IN \E r \in {Format(f, args, chars, Cf6)} : \E alts \in {FormatAlts(f, args, chars, Cf6)} :
+       IF ~Judged(r, alts) THEN TRUE ELSE          \* (IF, not \/: TLC explores both sides of a disjunction)
+       Out([fam |-> family, fmt |-> f, args |-> ArgsJ(args), chars |-> chars, verb |-> verb,
+            flags |-> FlagText(flags), wk |-> d.wk, pk |-> d.pk, ub |-> UbFlags(d),
+            cn |-> PNumJ(ConvNum(verb, v)), cs |-> (IF verb = c_s THEN ToStr(v, Cf6) ELSE <<>>),
+            isnum |-> ArgIsNumber(v, GoawkDialect), alts |-> alts,
+            err |-> r.err, out |-> r.out])
 PickD ==
   /\ fam = "d" /\ st = 0 /\ st' = 1
   /\ \E flags \in SUBSET FlagChars : \E wi \in 1..Len(WOpts) : \E pi \in (IF verb = c_c THEN {1} ELSE 1..Len(POpts)) :
        /\ CaseHash(flags, wi, pi, verb) % NStrata = Stratum
-       /\ LET d == MkDir(flags, wi, pi, verb)
-              args == CaseArgs(wi, pi, v)
-              r == Format(CaseFmt(d), args, chars, Cf6)
-          IN IF IsUnmStr(r.out) THEN TRUE ELSE          \* (IF, not \/: TLC explores both sides of a disjunction)
-             PrintT(ToJson([fam |-> "d", fmt |-> CaseFmt(d), args |-> ArgsJ(args), chars |-> chars, verb |-> verb,
-                            flags |-> FlagText(flags), wk |-> d.wk, pk |-> d.pk, ub |-> UbFlags(d),
-                            cn |-> PNumJ(ConvNum(verb, v)), cs |-> (IF verb = c_s THEN ToStr(v, Cf6) ELSE <<>>),
-                            err |-> r.err, out |-> r.out]))
+       /\ DirCase("d", flags, wi, pi)
+  /\ UNCHANGED <<fam, verb, v, chars>>
+PickK ==
+  /\ fam = "k" /\ st = 0 /\ st' = 1
+  /\ \E flags \in KFlags(KFull) : \E wi \in KWs(KFull) : \E pi \in KPs(KFull, verb) :
+       /\ CaseHash(flags, wi, pi, verb) % KStrata = KStratum
+       /\ DirCase("k", flags, wi, pi)
   /\ UNCHANGED <<fam, verb, v, chars>>
 PickM ==
   /\ fam = "m" /\ st = 0 /\ st' = 1
-  /\ \E mc \in Multi :
-       LET r == Format(mc.f, mc.a, chars, Cf6)
-       IN IF IsUnmStr(r.out) THEN TRUE ELSE
-          PrintT(ToJson([fam |-> "m", fmt |-> mc.f, args |-> ArgsJ(mc.a), chars |-> chars, err |-> r.err, out |-> r.out]))
+  /\ \E mc \in Multi : \E r \in {Format(mc.f, mc.a, chars, Cf6)} :
+       IF IsUnmStr(r.out) THEN TRUE ELSE
+       Out([fam |-> "m", fmt |-> mc.f, args |-> ArgsJ(mc.a), chars |-> chars, alts |-> {}, err |-> r.err, out |-> r.out])
   /\ UNCHANGED <<fam, verb, v, chars>>
-PickO ==
-  /\ fam = "o" /\ st = 0 /\ st' = 1
-  /\ \E j \in 1..Len(OFMTs) :
-       LET str == NumToStr(v.n, OFMTs[j])
-       IN IF IsUnmStr(str) THEN TRUE ELSE
-          PrintT(ToJson([fam |-> "o", n |-> PNumJ(v.n), of |-> CfText(OFMTs[j]), integral |-> InInt64(v.n), out |-> str]))
+\* a run is exported if every call of it is pinned down (no open form, nothing Unmodelled)
+PickQ ==
+  /\ fam = "q" /\ st = 0 /\ st' = 1
+  /\ \E rs \in {RunResults(v, 1, chars)} :
+       IF RunOpen(v) \/ \E k \in 1..Len(rs) : IsUnmStr(rs[k].out) THEN TRUE ELSE
+       Out([fam |-> "q", chars |-> chars,
+            calls |-> [k \in 1..Len(rs) |-> [fmt |-> v[k].f, args |-> ArgsJ(v[k].a), err |-> rs[k].err, out |-> rs[k].out]]])
   /\ UNCHANGED <<fam, verb, v, chars>>
-Next == PickD \/ PickM \/ PickO
+PickP ==
+  /\ fam = "p" /\ st = 0 /\ st' = 1
+  /\ \E of \in OFmtTexts : \E cf \in CFmtTexts : \E mode \in PrintModes : \E ofs \in (IF mode = "default" THEN OfsTexts ELSE {<<SP>>}) :
+       \E line \in {PrintLine(v, of, mode, ofs, <<LF>>)} :
+         IF IsUnmStr(line) THEN TRUE ELSE
+         Out([fam |-> "p", args |-> ArgsJ(v), of |-> of, cf |-> cf, mode |-> mode, ofs |-> ofs,
+              fraction |-> HasFraction(v), defprec |-> (of \in {<<PCT, c_g>>, <<PCT, C_G>>}), out |-> line])
+  /\ UNCHANGED <<fam, verb, v, chars>>
+\* %s of a number: "the argument converted the AWK way" is the number -> string conversion under CONVFMT
+PickV ==
+  /\ fam = "v" /\ st = 0 /\ st' = 1
+  /\ \E cf \in OFmtTexts : \E str \in {NumToText(v.n, cf)} :
+       IF IsUnmStr(str) THEN TRUE ELSE
+       Out([fam |-> "v", n |-> PNumJ(v.n), cf |-> cf, fraction |-> ~InInt64(v.n), defprec |-> (cf \in {<<PCT, c_g>>, <<PCT, C_G>>}), out |-> str])
+  /\ UNCHANGED <<fam, verb, v, chars>>
+Next == PickD \/ PickK \/ PickM \/ PickQ \/ PickP \/ PickV
 Spec == Init /\ [][Next]_vars
 =============================================================================
